@@ -14,6 +14,54 @@ SCU = "codelimit.common.scope.scope_utils"
 
 
 def rule_R1(ctx, prj):
+    if rule_R1_evaluated(ctx, prj):
+        return
+    rule_R1_structural(ctx, prj)
+
+
+def rule_R1_evaluated(ctx, prj) -> bool:
+    """entries produced by the interpreted scan_path (measuring stubbed: 40 + 7 lines per file) and entries read back by the
+    interpreted ReportReader carry loc = sum of the values of the measurements stored with them"""
+    from ..absint import PyRaise, Unknown
+    from .. import walk_eval as W
+    from ..report_eval import ReportLab
+    ctx.rule("R1", "a file's line total is the sum of its function lengths: every entry of the codebase returned by the "
+                   "interpreted scan_path (virtual tree; the measuring function stubbed to two functions of 40 and 7 lines) has "
+                   "loc = 47 and exactly those measurements; every entry read back by the interpreted ReportReader from a "
+                   "written report has the written loc and measurements", floor=3)
+    sp = prj.func(f"{SC}:scan_path")
+    try:
+        es = W.scanned_entries(prj)
+        if not es:
+            raise Unknown("no entry was produced")
+        bad = [e for e in es if e[3] != sum(e[4]) or e[4] != [40, 7]]
+        if bad:
+            k, _, _, loc, vals, _ = bad[0]
+            ctx.viol("R1", "_analyze_file/SourceFileEntry", sp.site(), f"the entry of {k} has line total {loc} and measurements of lengths {vals}; required the two measured functions (40, 7) "
+                     f"and their sum 47: the total is not the sum of the lengths stored with it ({len(bad)} of {len(es)} entries)")
+        else:
+            ctx.ok("R1", sp.site(), f"scan path: {len(es)} entries, each with loc = sum of the lengths of its measurements")
+            ctx.ok("R1", sp.site(), "scan path: measurements stored unchanged")
+        lab = ReportLab(prj)
+        rep = lab.sample(False, "1.0")
+        back = lab.read(lab.write(rep, True))
+        a, b = lab.snapshot(rep)["files"], lab.snapshot(back)["files"]
+        rfi = prj.func("codelimit.common.report.ReportReader:ReportReader.from_json")
+        badr = [(x, y) for x, y in zip(a, b) if x[4] != y[4] or x[5] != y[5] or y[4] != sum(m[5] for m in y[5])]
+        if badr or len(a) != len(b):
+            ctx.viol("R1", "ReportReader.from_json/SourceFileEntry", rfi.site(), f"an entry read back has line total {badr[0][1][4] if badr else '?'} for measurements of lengths "
+                     f"{[m[5] for m in badr[0][1][5]] if badr else '?'} (written: {badr[0][0][4] if badr else '?'})")
+        else:
+            ctx.ok("R1", rfi.site(), f"read path: {len(b)} entries with the written line totals = sum of their measurements")
+    except (Unknown, PyRaise) as e:
+        ctx.info(f"entries not evaluable ({type(e).__name__}: {e}); structural pairing rule decides")
+        ctx.violations[:] = [v for v in ctx.violations if v.rule != "R1"]
+        ctx.instances["R1"] = []
+        return False
+    return True
+
+
+def rule_R1_structural(ctx, prj):
     ctx.rule("R1", "a file's line total is the sum of its function lengths at every construction of a SourceFileEntry on "
                    "the scan and read paths: sum(.value over M) with the same M, (E.loc, E.measurements()) of the same cached "
                    "entry, or (v['loc'], list built from v['measurements']) of the same JSON object", floor=3)
